@@ -135,7 +135,13 @@ def gen_docs(prop, seed, n, profile="F", replay=None, max_depth=3, features=None
             props = {"id": {"type": "integer"}}
             for nm, sch, z in r.sample(zero, r.randrange(2, 6)):
                 props[nm] = dict(sch, default=z)
-            req = ["id"] + [n_ for n_ in props if n_ != "id" and r.random() < 0.3]   # a default does not lift `required`
+            if i % 3 == 0:
+                # an inline struct member with a whole-type default of its own and required members inside
+                props["cfg"] = {"type": "object", "properties": {"host": {"type": "string"}, "port": {"type": "integer", "format": "uint16"},
+                                                                  "tls": {"type": "boolean", "default": True}},
+                                "required": ["host"] + (["port"] if r.random() < 0.5 else []),
+                                "default": {"host": "localhost", "port": 8080}}
+            req = ["id"] + [n_ for n_ in props if n_ not in ("id", "cfg") and r.random() < 0.3]   # a default does not lift `required`
             doc = {"definitions": {"Zeroed": {"type": "object", "properties": props, "required": req}}}
             if i % 2:
                 doc["definitions"]["Zeroed"]["additionalProperties"] = False
